@@ -185,6 +185,8 @@ struct crs {
     }
 
     const crs& operator=(const crs &other) {
+        if (this == &other) return *this;
+
         free_data();
 
         // The arrays allocated below belong to this matrix even if it used
